@@ -41,6 +41,14 @@ NUM_NAMES = ["42", "042", "0042", "4.2e1", "42.0", "1e3", "1000", "1_000", "3.1"
 NUM_PREFIXES = ["4", "04", "42", "0", "1", "1e", "3.1", "-", "+", " ", ".", "\u0664", ""]
 NUM_REGEXES = ["\\d+", "\\d+$", "0*42", "4.*", "[0-9.]+$", "42", "1e3", "-?7", ".*", "\\s*42", "[+-]", "(?a)\\d+$", "("]
 NUM_TAGS = ["42", "042", "3.1", "3.10", "1e3", "1000", "-7", "+7", "7", " 42", "\u0664\u0662", "t", ""]
+# names / tags beyond the basic multilingual plane and around the places where code-point order, UTF-8 / UTF-16 order, case
+# folding and normalisation disagree (a range query, a collation or a folding comparison in a back-end shows here)
+UNI_NAMES = ["a", "a\U0001F600", "a\U00010000b", "a\uffff", "a\ufffd", "a\ud7ff", "a\u00e9", "ae\u0301", "\u00e9", "e\u0301", "\u00c9",
+             "\u00df", "ss", "\u0131", "I", "i", "\u212a", "K", "k", "a\x00b", "a\x00", "\U0001F600", "\U0001F600a", "a\x7f", NSNAME]
+UNI_PREFIXES = ["a", "a\U0001F600", "a\U00010000", "a\uffff", "a\x00", "\U0001F600", "e", "\u00e9", "k", "K", "\u212a", "s", "\u00df",
+                "i", "I", "a\ud7ff", "ae", ""]
+UNI_REGEXES = ["a.", "a.b", "a.$", "k", "(?i)k", "(?i)ss", "\u00e9", "e.", "a\x00", "a[\U00010000-\U0010ffff]", "a\\W", ".*", "[^a]", "("]
+UNI_TAGS = ["t", "\U0001F600", "K", "\u212a", "k", "t\x00u", "\u00e9", "e\u0301", ""]
 MUTATING = ("register", "register-safe", "remove-name", "remove-prefix", "remove-regex", "set_metadata")
 
 
@@ -454,10 +462,12 @@ class NsModelWorld(World):
         cfg = "B" if rng.random() < 0.25 else "A"
         # alphabet family of this history: textual collisions, numeric-literal collisions, or both
         r = rng.random()
-        if r < 0.62:
+        if r < 0.55:
             pool = {"names": NAMES, "prefixes": PREFIXES, "regexes": REGEXES, "tags": TAGS}
-        elif r < 0.9:
+        elif r < 0.78:
             pool = {"names": NUM_NAMES, "prefixes": NUM_PREFIXES, "regexes": NUM_REGEXES, "tags": NUM_TAGS}
+        elif r < 0.9:
+            pool = {"names": UNI_NAMES, "prefixes": UNI_PREFIXES, "regexes": UNI_REGEXES, "tags": UNI_TAGS}
         else:
             pool = {"names": NAMES + NUM_NAMES[:-1], "prefixes": PREFIXES + NUM_PREFIXES, "regexes": REGEXES + NUM_REGEXES,
                     "tags": TAGS + NUM_TAGS[:-2]}
